@@ -100,8 +100,8 @@ func (r *Result) Violate(sig, detail string, step int) {
 			return // one per signature per run is enough
 		}
 	}
-	if len(detail) > 600 {
-		detail = detail[:600] + "…"
+	if len(detail) > 2600 {
+		detail = detail[:2600] + "…"
 	}
 	r.Violations = append(r.Violations, Violation{Sig: sig, Detail: detail, Step: step})
 }
@@ -215,6 +215,8 @@ type Description struct {
 	Isolated bool
 	// Race: built with -race from the instrumented scratch copy (C17).
 	Race bool
+	// PlansPerProcess > 0: a worker process executes at most that many plans (cold starts).
+	PlansPerProcess int
 }
 
 var registry = map[string]Scenario{}
